@@ -111,3 +111,14 @@ Definition run_write_buf (len hint : nat) (items : list Z) : list Z :=
   (match st with WOk => c_int 0 | WErr => c_err | WPanic k => c_panic k end) ++ c_sep
   ++ flat_map (fun x => match x with Some v => c_int v | None => c_uninit end)
               (apply_writes ws (repeat None len)).
+
+(* ---- Vec1Mut / sort --------------------------------------------------------------------------- *)
+Definition run_get_mut (xs : list Z) (i : nat) : list Z := c_opt c_int (get_mut xs i).
+(* the harness callback: log (old, other), then *v = 10 * old + other *)
+Definition run_apply_mut_with (xs ys : list Z) : list Z :=
+  let '(ok, out, calls) := apply_mut_with (fun v o => (10 * v + o)%Z) xs ys in
+  (if ok then c_int 0 else c_err) ++ flat_map (fun p => c_int (fst p) ++ c_int (snd p)) calls ++ c_sep
+  ++ cells c_int out.
+Definition run_sort (rev : bool) (xs : list Z) : list Z :=
+  let '(ok, out) := sort_unstable_by (if rev then Z.geb else Z.leb) xs in
+  (if ok then c_int 0 else c_err) ++ cells c_int out.
